@@ -9,7 +9,7 @@ RULES[PID] = ("e2e leg: seeded generated Rust programs (straight-line, branches,
               "breakpoint set, in order, until exit. Non-trivial: >= 2 stops and (a removal or >= 4 stops); distinct by history text.")
 
 
-def run(tier, seed, pid=PID, files=None, rule_extra=None):
+def run(tier, seed, pid=PID, files=None, rule_extra=None, extra=None):
     ctx = Ctx(pid, tier, seed, files or COQ_FILES)
     ctx.translate()
     ok = ctx.coq_build()
@@ -29,6 +29,8 @@ def run(tier, seed, pid=PID, files=None, rule_extra=None):
             if s.get("behaviour_failures"):
                 ctx.violate("impl-violates-spec", "c01-e2e native behaviour", {"failures": s["behaviour_failures"][:5]},
                             key="c01-e2e:behaviour", found_input=True)
+        if extra:
+            extra(ctx, tier, seed)
     ctx.refuted += [
         {"theorem": "C01_remove_zero_refuted", "witness": "`break remove 0` before run removes the entry-point breakpoint (internal breakpoints carry number 0)"},
         {"theorem": "C01_removed_silent_refuted", "witness": "after the program exited `break remove <addr>` looks up the Relocated form, breakpoints are keyed Global"},
